@@ -78,7 +78,7 @@ func checkRestored(c RCase, s *rt.Section) (f *rt.Failure, calls int) {
 	describe := func(o outcome, n int) string {
 		return fmt.Sprintf("err=%q ret=%s rest=%q handler calls=%d", firstLine(o.err), clip(o.ret), o.rest, n)
 	}
-	if len(recB.calls) < len(recA.calls) && (oA.isErr != oB.isErr || oA.ret != oB.ret) {
+	if len(recB.calls) < len(recA.calls) {
 		return s.NewFailure("same-after-restore", "restored:not-recognised", c, "restored VM: "+describe(oB, len(recB.calls)),
 			"defining VM: "+describe(oA, len(recA.calls))), calls
 	}
@@ -96,6 +96,9 @@ func checkRestored(c RCase, s *rt.Section) (f *rt.Failure, calls int) {
 	}
 	for _, x := range list {
 		if x.a != x.b {
+			if x.what == "detail" && sameModuloDictOrder(x.a, x.b) {
+				continue
+			}
 			return s.NewFailure("same-after-restore", "restored:"+x.what, c, fmt.Sprintf("restored VM: %s = %s", x.what, clip(x.b)),
 				fmt.Sprintf("defining VM: %s = %s", x.what, clip(x.a))), calls
 		}
